@@ -45,6 +45,9 @@ type bundle struct {
 	Topics   []string
 	TopicGot [][]string
 	TopicErr []string
+	// the same selection read in log-time order (messages, for the monotonicity check)
+	TopicLog    [][]gow.Triple
+	TopicLogErr []string
 }
 
 func tripleKey(t gow.Triple) string {
@@ -200,6 +203,15 @@ func readBundle(b []byte) *bundle {
 			default:
 				bu.TopicErr, bu.TopicGot = append(bu.TopicErr, ""), append(bu.TopicGot, keys(tr.Triples))
 			}
+			tl := gow.Iterate(bytes.NewReader(b), gow.NextIntoNil, false, nil, 0, mcap.WithTopics([]string{topic}), mcap.InOrder(mcap.LogTimeOrder))
+			switch {
+			case tl.Panic != "":
+				bu.TopicLogErr, bu.TopicLog = append(bu.TopicLogErr, "panic: "+tl.Panic), append(bu.TopicLog, nil)
+			case tl.Failed() != nil:
+				bu.TopicLogErr, bu.TopicLog = append(bu.TopicLogErr, tl.Failed().Error()), append(bu.TopicLog, nil)
+			default:
+				bu.TopicLogErr, bu.TopicLog = append(bu.TopicLogErr, ""), append(bu.TopicLog, tl.Triples)
+			}
 		}
 	}
 	func() {
@@ -325,7 +337,9 @@ func logicalContents() []*logical {
 		{"3msg-1chan", []*ref.Schema{s1}, []*ref.Channel{c1}, []*ref.Message{m(1, 1, 2, 2), m(1, 2, 2, 2), m(1, 3, 1, 2)}, nil, d},
 		{"1msg-schemaless", nil, []*ref.Channel{c2}, []*ref.Message{m(2, 1, 0, 4)}, a, nil},
 		// a first chunk can span two later, mutually disjoint ones: partition {1,9},{3},{5}
-		{"4msg-spanning", []*ref.Schema{s1}, []*ref.Channel{c1}, []*ref.Message{m(1, 1, 1, 2), m(1, 2, 9, 2), m(1, 3, 3, 2), m(1, 4, 5, 2)}, nil, nil},
+		// (the third message on the other topic, the fourth earlier than it: under a topic selection the
+		// second chunk contributes nothing and the third is still due)
+		{"4msg-spanning", []*ref.Schema{s1}, []*ref.Channel{c1, c2}, []*ref.Message{m(1, 1, 1, 2), m(1, 2, 9, 2), m(2, 3, 3, 2), m(1, 4, 2, 2)}, nil, nil},
 	}
 }
 
@@ -558,6 +572,25 @@ func c12Oracle(l *logical, ls *layoutSpec, bu *bundle) *explore.Verdict {
 				sig = "C12:topic-read-silent-loss"
 			}
 			return vio(sig, "Messages(WithTopics(%q)) returned %d messages, the content has %d on that topic", topic, len(bu.TopicGot[ti]), len(wt))
+		}
+		// the same selection in log-time order: same messages, monotone times (an unindexed layout may refuse)
+		if bu.TopicLogErr[ti] != "" {
+			if ls.noRepeat == 0 && ls.partition != nil {
+				return vio("C12:topic-read-error", "Messages(WithTopics(%q), LogTimeOrder) failed on a legal indexed layout: %s", topic, bu.TopicLogErr[ti])
+			}
+			continue
+		}
+		gl := keys(bu.TopicLog[ti])
+		a, w := append([]string(nil), gl...), append([]string(nil), wt...)
+		sort.Strings(a)
+		sort.Strings(w)
+		if !reflect.DeepEqual(a, w) {
+			return vio("C12:topic-read-content", "Messages(WithTopics(%q), LogTimeOrder) returned %d messages, the content has %d on that topic", topic, len(a), len(w))
+		}
+		for i := 1; i < len(bu.TopicLog[ti]); i++ {
+			if bu.TopicLog[ti][i].M.LogTime < bu.TopicLog[ti][i-1].M.LogTime {
+				return vio("C12:indexed-order", "Messages(WithTopics(%q), LogTimeOrder) is not sorted at position %d", topic, i)
+			}
 		}
 	}
 	if ls.partition != nil && ls.noRepeat != 0 {
@@ -822,7 +855,7 @@ var (
 
 // C12: readers return the same content for every legal layout of it.
 func C12(r *chk.Run) {
-	r.Rule("4 logical contents (<=4 messages on <=2 channels, one with times 1,9,3,5 so that a chunk can span two later disjoint chunks, shared schema / schemaless, attachment, metadata); layout dimensions: (a) every composition of the message sequence into chunks, each also with an empty chunk at every position, plus unchunked; (b) every per-chunk compression assignment over {none,zstd,lz4}; (c) 4 schema/channel placements; (d) all 720 orders of the six summary groups; (e) all 256 subsets of {message index, statistics, summary offsets, attachment index, metadata index, chunk CRC, data CRC, summary CRC}; quick: every pair of dimensions varied fully with the other three at each of two base settings; thorough adds the full product for the 1-message and 3-message contents; every reader bundle includes a default-options read restricted to each topic; a further phase enumerates every partition x placement x {schemas, channels, both} NOT repeated in the summary x {message index, statistics} subsets x 2 group orders, where index-based and topic-filtered reads may refuse but must never return a silent subset; every emitted file is first validated by the reference validator; distinct = distinct files")
+	r.Rule("4 logical contents (<=4 messages on <=2 channels, one with times 1,9,3,2 on two topics so that a chunk can span two later disjoint chunks, shared schema / schemaless, attachment, metadata); layout dimensions: (a) every composition of the message sequence into chunks, each also with an empty chunk at every position, plus unchunked; (b) every per-chunk compression assignment over {none,zstd,lz4}; (c) 4 schema/channel placements; (d) all 720 orders of the six summary groups; (e) all 256 subsets of {message index, statistics, summary offsets, attachment index, metadata index, chunk CRC, data CRC, summary CRC}; quick: every pair of dimensions varied fully with the other three at each of two base settings; thorough adds the full product for the 1-message and 3-message contents; every reader bundle includes a default-options read restricted to each topic; a further phase enumerates every partition x placement x {schemas, channels, both} NOT repeated in the summary x {message index, statistics} subsets x 2 group orders, where index-based and topic-filtered reads may refuse but must never return a silent subset; every emitted file is first validated by the reference validator; distinct = distinct files")
 	r.Assume("chunk indexes are always kept, and repeated schema/channel records are kept wherever indexed reads are required to succeed; ties across chunks in time order are unconstrained")
 	r.Phase("summary-without-repeated-records", c12NoRepeatBody(), chk.PhaseOpts{Share: 0.2, SplitLen: 3})
 	r.Phase("all-pairs-of-dimensions", c12Body(false, r.Thorough()), chk.PhaseOpts{Share: 0.7, SplitLen: 4})
